@@ -99,8 +99,13 @@ def _build(t, ch, tap):
     return r
 
 
+ANNO_FACTORY = None  # set by the property module: spec -> claripy.Annotation
+
+
 def _build1(t, ch, tap):
     op = t[0]
+    if op == "anno":
+        return _build(t[2], ch, tap).annotate(ANNO_FACTORY(t[1]))
     lf = _leaf(t)
     if lf is not None:
         if op == "bconst" and ch.pick(2):
